@@ -407,6 +407,13 @@ struct ClipView {
     k: Option<Vec<u8>>,
 }
 
+fn envelope_oracle(prop: Prop) -> &'static str {
+    match prop {
+        Prop::C05 => "c05.clip-coverage-where-the-clip-path-cannot-be",
+        _ => "c02.clip-coverage-where-the-clip-path-cannot-be",
+    }
+}
+
 fn clip_view(clips: &[ClipModel], extent: Option<[i32; 4]>, w: i32, h: i32) -> ClipView {
     let n = (w * h) as usize;
     let mut inside = vec![true; n];
@@ -519,6 +526,12 @@ pub fn run_tower(prop: Prop, h: &History, st: &mut Stats) -> Outcome {
                         return Outcome::Aborted(format!("canonical clip coverage: {}", panic_desc(&pi)));
                     }
                 };
+                if matches!(prop, Prop::C02 | Prop::C05) {
+                    if let Some(d) = crate::geo::first_impossible(&cov, &mk::build_path(p), &mk::mat(&ctm), w, hh) {
+                        return viol(envelope_oracle(prop), i, format!("push_clip: {}", d));
+                    }
+                    st.count("geometric_envelope_checked");
+                }
                 run_all!(step, i);
                 clips.push(ClipModel::Mask(cov));
                 brackets.push(Br::Clip);
@@ -791,6 +804,26 @@ pub fn run_tower(prop: Prop, h: &History, st: &mut Stats) -> Outcome {
                                 }
                             }
                         }
+                    }
+                }
+                // "coverage by the drawn shape is zero" as far as plain geometry decides it: the
+                // canonical render is itself a drawing call, and it must not put coverage where
+                // the shape certainly is not (an envelope computed in f64 without the rasteriser)
+                if let (Some(cov), Prop::C02) = (&cov, prop) {
+                    let t = mk::mat(&ctm);
+                    let bad = match op {
+                        Op::Fill { path, .. } => crate::geo::first_impossible(cov, &mk::build_path(path), &t, w, hh),
+                        Op::FillRect { rect, .. } => crate::geo::first_impossible(cov, &rect_path(rect[0].0, rect[1].0, rect[2].0, rect[3].0), &t, w, hh),
+                        Op::DrawImageAt { x, y, img, .. } => crate::geo::first_impossible(cov, &rect_path(x.0, y.0, img.w as f32, img.h as f32), &t, w, hh),
+                        Op::DrawImageSized { w: rw, h: rh, x, y, .. } => crate::geo::first_impossible(cov, &rect_path(x.0, y.0, rw.0, rh.0), &t, w, hh),
+                        Op::Stroke { path, style, .. } => crate::geo::first_impossible_stroke(cov, &mk::build_path(path), style.width.0, style.miter_limit.0, &t, w, hh),
+                        _ => None,
+                    };
+                    if let Some(d) = bad {
+                        return viol("c02.coverage-where-the-shape-cannot-be", i, format!("{}: {}", op.name(), d));
+                    }
+                    if matches!(op, Op::Fill { .. } | Op::FillRect { .. } | Op::DrawImageAt { .. } | Op::DrawImageSized { .. } | Op::Stroke { .. }) {
+                        st.count("geometric_envelope_checked");
                     }
                 }
                 // A dash array of odd length is, by definition, the array repeated twice: the
